@@ -463,6 +463,58 @@ func runC19(t *testing.T, tier string) int {
 			stop()
 		}
 
+		// ---------------- a window ABOVE the streamer's internal batch size (100): after
+		// 100 fast successes the window is 101; with an endpoint that then stops
+		// answering and a backlog of 300, never more than 101 requests are open
+		{
+			var msgs []c19Msg
+			for i := 0; i < 100; i++ {
+				msgs = append(msgs, c19Msg{data: []byte(fmt.Sprintf(`{"w":%d}`, i))})
+			}
+			rt, _, _, stop, err := env.start(msgs)
+			if err != nil {
+				t.Fatal(err)
+			}
+			answered := 0
+			for step := 0; step < 1000 && answered < 100; step++ {
+				open := rt.openList()
+				if len(open) == 0 {
+					break
+				}
+				for _, p := range open {
+					p.answer <- postAnswer{status: 204}
+					answered++
+				}
+				synctest.Wait()
+			}
+			orderRuns++
+			if answered != 100 {
+				sink.add(report.Viol{Property: "C19", Check: "C19/large-window", Rule: "not-pushed", Text: fmt.Sprintf("only %d of 100 messages were pushed although every push was acknowledged at once", answered), Trace: []string{"large-window"}})
+			} else {
+				rt.mu.Lock()
+				rt.maxOpen = 0
+				rt.mu.Unlock()
+				req := &pubsubpb.PublishRequest{Topic: c19Topic}
+				for i := 0; i < 300; i++ {
+					req.Messages = append(req.Messages, &pubsubpb.PubsubMessage{Data: []byte(fmt.Sprintf(`{"b":%d}`, i))})
+				}
+				if _, err := env.w.Pub.Publish(context.Background(), req); err != nil {
+					t.Fatal(err)
+				}
+				synctest.Wait()
+				rt.mu.Lock()
+				peak := rt.maxOpen
+				rt.mu.Unlock()
+				if peak > 101 || peak < 1 {
+					sink.add(report.Viol{Property: "C19", Check: "C19/large-window", Rule: "window-exceeded", Text: fmt.Sprintf("after 100 fast successes the window is 101; with a silent endpoint and a backlog of 300, %d POSTs were in flight at once", peak), Trace: []string{"large-window", fmt.Sprint(peak)}})
+				}
+				for _, p := range rt.openList() {
+					p.answer <- postAnswer{status: 204}
+				}
+			}
+			stop()
+		}
+
 		// ---------------- (ii) pending requests answered in every order
 		nMsgs, maxSteps := 5, 6
 		if tier == "thorough" {
